@@ -1058,6 +1058,280 @@ pub proof fn lemma_only_post_r<P: Prefix, L, R>(tl: Seq<Node<P, L>>, tr: Seq<Nod
         (match chd(tr, r as int, false) { Some(c) => s1(Ent::OnlyR(c)), None => Seq::<Ent>::empty() }));
 }
 
+// ---- intersection (C06): entries may be pruned; only keys that have a node in BOTH views need to stay covered ----
+
+/// every key that has a node in both views inside region z is covered by one of the entries
+#[verifier::opaque]
+pub open spec fn ents_cover2<P: Prefix, L, R>(tl: Seq<Node<P, L>>, tr: Seq<Node<P, R>>, xa: Seq<bool>, xb: Seq<bool>, z: Seq<bool>, st: bool, es: Seq<Ent>) -> bool {
+    forall|n: int, m: int| #![trigger tlive(tl).contains(n), tlive(tr).contains(m)]
+        vin(tl, xa, n) && vin(tr, xb, m) && kb(tl, n) =~= kb(tr, m) && in_reg(z, st, kb(tl, n)) ==> exists|k: int| 0 <= k < es.len() && pre(ent_key(tl, tr, #[trigger] es[k]), kb(tl, n))
+}
+
+pub open spec fn ix_post<P: Prefix, L, R>(tl: Seq<Node<P, L>>, tr: Seq<Node<P, R>>, xa: Seq<bool>, xb: Seq<bool>, z: Seq<bool>, st: bool, es: Seq<Ent>) -> bool {
+    ents_ok(tl, tr, xa, xb, z, st, es) && ents_cover2(tl, tr, xa, xb, z, st, es)
+}
+
+pub proof fn lemma_ni_ix<P: Prefix, L, R>(tl: Seq<Node<P, L>>, tr: Seq<Node<P, R>>, xa: Seq<bool>, xb: Seq<bool>, z: Seq<bool>, st: bool, es: Seq<Ent>)
+    requires ni_post(tl, tr, xa, xb, z, st, es)
+    ensures ix_post(tl, tr, xa, xb, z, st, es)
+{
+    reveal(ents_cover); reveal(ents_cover2);
+}
+
+/// pruning: when the two sides of a region cannot share a key, nothing needs to be pushed
+pub proof fn lemma_ix_prune<P: Prefix, L, R>(tl: Seq<Node<P, L>>, tr: Seq<Node<P, R>>, xa: Seq<bool>, xb: Seq<bool>, z: Seq<bool>, st: bool, a: Option<usize>, b: Option<usize>)
+    requires
+        ni_pre(tl, tr, xa, xb, z, st, a, b),
+        a.is_none() || b.is_none() || incomparable(kb(tl, a.unwrap() as int), kb(tr, b.unwrap() as int)),
+    ensures ix_post(tl, tr, xa, xb, z, st, Seq::<Ent>::empty())
+{
+    reveal(ents_ok); reveal(ents_cover2);
+    assert forall|n: int, m: int| #![trigger tlive(tl).contains(n), tlive(tr).contains(m)]
+        vin(tl, xa, n) && vin(tr, xb, m) && kb(tl, n) =~= kb(tr, m) && in_reg(z, st, kb(tl, n)) implies false by {
+        if a.is_some() && b.is_some() {
+            lemma_pre_comparable(kb(tl, a.unwrap() as int), kb(tr, b.unwrap() as int), kb(tl, n));
+        }
+    }
+}
+
+/// all cases of the intersection's next_indices at once
+pub open spec fn ix_cases<P: Prefix, L, R>(tl: Seq<Node<P, L>>, tr: Seq<Node<P, R>>, xa: Seq<bool>, xb: Seq<bool>, z: Seq<bool>, st: bool, a: Option<usize>, b: Option<usize>) -> bool {
+    match (a, b) {
+        (Some(a), Some(b)) => {
+            let ka = kb(tl, a as int); let kbb = kb(tr, b as int);
+            (ka =~= kbb ==> ix_post(tl, tr, xa, xb, z, st, s1(Ent::Both(a, b))))
+            && (spre(ka, kbb) ==> ix_post(tl, tr, xa, xb, z, st, s1(Ent::FirstL(a, b))))
+            && (spre(kbb, ka) ==> ix_post(tl, tr, xa, xb, z, st, s1(Ent::FirstR(a, b))))
+            && (incomparable(ka, kbb) ==> ix_post(tl, tr, xa, xb, z, st, Seq::<Ent>::empty()))
+        },
+        _ => ix_post(tl, tr, xa, xb, z, st, Seq::<Ent>::empty()),
+    }
+}
+
+pub proof fn lemma_ix_cases<P: Prefix, L, R>(tl: Seq<Node<P, L>>, tr: Seq<Node<P, R>>, a: Option<usize>, b: Option<usize>)
+    ensures forall|xa: Seq<bool>, xb: Seq<bool>, z: Seq<bool>, st: bool| #[trigger] ni_pre(tl, tr, xa, xb, z, st, a, b) ==> ix_cases(tl, tr, xa, xb, z, st, a, b)
+{
+    assert forall|xa: Seq<bool>, xb: Seq<bool>, z: Seq<bool>, st: bool| #[trigger] ni_pre(tl, tr, xa, xb, z, st, a, b) implies ix_cases(tl, tr, xa, xb, z, st, a, b) by {
+        if a.is_some() && b.is_some() {
+            let a_ = a.unwrap(); let b_ = b.unwrap();
+            let ka = kb(tl, a_ as int); let kbb = kb(tr, b_ as int);
+            if ka =~= kbb { lemma_ni_both(tl, tr, xa, xb, z, st, a_, b_); lemma_ni_ix(tl, tr, xa, xb, z, st, s1(Ent::Both(a_, b_))); }
+            if spre(ka, kbb) { lemma_ni_first_l(tl, tr, xa, xb, z, st, a_, b_); lemma_ni_ix(tl, tr, xa, xb, z, st, s1(Ent::FirstL(a_, b_))); }
+            if spre(kbb, ka) { lemma_ni_first_r(tl, tr, xa, xb, z, st, a_, b_); lemma_ni_ix(tl, tr, xa, xb, z, st, s1(Ent::FirstR(a_, b_))); }
+            if incomparable(ka, kbb) { lemma_ix_prune(tl, tr, xa, xb, z, st, a, b); }
+        } else {
+            lemma_ix_prune(tl, tr, xa, xb, z, st, a, b);
+        }
+    }
+}
+
+/// the two halves below x (intersection)
+pub proof fn lemma_ix_concat<P: Prefix, L, R>(tl: Seq<Node<P, L>>, tr: Seq<Node<P, R>>, xa: Seq<bool>, xb: Seq<bool>, x: Seq<bool>, csr: Seq<Ent>, csl: Seq<Ent>)
+    requires ix_post(tl, tr, xa, xb, x.push(true), false, csr), ix_post(tl, tr, xa, xb, x.push(false), false, csl)
+    ensures ix_post(tl, tr, xa, xb, x, true, csr + csl)
+{
+    reveal(ents_ok); reveal(ents_cover2);
+    lemma_half_region(x, true);
+    lemma_half_region(x, false);
+    let cs = csr + csl;
+    assert forall|k: int| 0 <= k < cs.len() implies ent_ok(tl, tr, xa, xb, #[trigger] cs[k]) && in_reg(x, true, ent_key(tl, tr, cs[k])) by {
+        if k < csr.len() { assert(cs[k] == csr[k]); assert(pre(x.push(true), ent_key(tl, tr, csr[k]))); }
+        else { assert(cs[k] == csl[k - csr.len()]); assert(pre(x.push(false), ent_key(tl, tr, csl[k - csr.len()]))); }
+    }
+    assert forall|k: int, j: int| 0 <= k < j < cs.len() implies
+            incomparable(ent_key(tl, tr, #[trigger] cs[k]), ent_key(tl, tr, #[trigger] cs[j])) && lex_lt(ent_key(tl, tr, cs[j]), ent_key(tl, tr, cs[k])) by {
+        if j < csr.len() { assert(cs[k] == csr[k] && cs[j] == csr[j]); }
+        else if k >= csr.len() { assert(cs[k] == csl[k - csr.len()] && cs[j] == csl[j - csr.len()]); }
+        else {
+            assert(cs[k] == csr[k] && cs[j] == csl[j - csr.len()]);
+            assert(pre(x.push(true), ent_key(tl, tr, csr[k])) && pre(x.push(false), ent_key(tl, tr, csl[j - csr.len()])));
+            lemma_lex_children(x, ent_key(tl, tr, csl[j - csr.len()]), ent_key(tl, tr, csr[k]));
+        }
+    }
+    assert forall|n: int, m: int| #![trigger tlive(tl).contains(n), tlive(tr).contains(m)]
+        vin(tl, xa, n) && vin(tr, xb, m) && kb(tl, n) =~= kb(tr, m) && spre(x, kb(tl, n)) implies exists|k: int| 0 <= k < cs.len() && pre(ent_key(tl, tr, #[trigger] cs[k]), kb(tl, n)) by {
+        if kb(tl, n)[x.len() as int] {
+            assert(pre(x.push(true), kb(tl, n)));
+            let k1 = choose|k: int| 0 <= k < csr.len() && pre(ent_key(tl, tr, #[trigger] csr[k]), kb(tl, n));
+            assert(cs[k1] == csr[k1]);
+        } else {
+            assert(pre(x.push(false), kb(tl, n)));
+            let k1 = choose|k: int| 0 <= k < csl.len() && pre(ent_key(tl, tr, #[trigger] csl[k]), kb(tl, n));
+            assert(cs[csr.len() + k1] == csl[k1]);
+        }
+    }
+}
+
+/// entries of both views stored under one common key that the stack still has to deliver
+pub open spec fn rem2<P: Prefix, L, R>(tl: Seq<Node<P, L>>, tr: Seq<Node<P, R>>, xa: Seq<bool>, xb: Seq<bool>, es: Seq<Ent>, n: int, m: int) -> bool {
+    vin(tl, xa, n) && vin(tr, xb, m) && kb(tl, n) =~= kb(tr, m) && tl[n].value.is_some() && tr[m].value.is_some() && kcov(tl, tr, es, kb(tl, n))
+}
+pub open spec fn yields2<P: Prefix, L, R>(tl: Seq<Node<P, L>>, tr: Seq<Node<P, R>>, xa: Seq<bool>, xb: Seq<bool>, es0: Seq<Ent>, es1: Seq<Ent>, x: Seq<bool>) -> bool {
+    &&& (forall|n: int, m: int| #![trigger tlive(tl).contains(n), tlive(tr).contains(m)] rem2(tl, tr, xa, xb, es0, n, m) && !(kb(tl, n) =~= x) ==> lex_lt(x, kb(tl, n)))
+    &&& (forall|n: int, m: int| #![trigger tlive(tl).contains(n), tlive(tr).contains(m)] rem2(tl, tr, xa, xb, es1, n, m) == (rem2(tl, tr, xa, xb, es0, n, m) && !(kb(tl, n) =~= x)))
+}
+pub open spec fn same_rem2<P: Prefix, L, R>(tl: Seq<Node<P, L>>, tr: Seq<Node<P, R>>, xa: Seq<bool>, xb: Seq<bool>, es0: Seq<Ent>, es1: Seq<Ent>) -> bool {
+    forall|n: int, m: int| #![trigger tlive(tl).contains(n), tlive(tr).contains(m)] rem2(tl, tr, xa, xb, es1, n, m) == rem2(tl, tr, xa, xb, es0, n, m)
+}
+pub open spec fn no_rem2<P: Prefix, L, R>(tl: Seq<Node<P, L>>, tr: Seq<Node<P, R>>, xa: Seq<bool>, xb: Seq<bool>, es: Seq<Ent>) -> bool {
+    forall|n: int, m: int| #![trigger tlive(tl).contains(n), tlive(tr).contains(m)] !rem2(tl, tr, xa, xb, es, n, m)
+}
+
+/// popping the top entry (key x) and pushing entries cs: structure of the new stack (no coverage claim)
+pub proof fn lemma_stack_replace_ok<P: Prefix, L, R>(tl: Seq<Node<P, L>>, tr: Seq<Node<P, R>>, xa: Seq<bool>, xb: Seq<bool>, es: Seq<Ent>, cs: Seq<Ent>)
+    requires
+        ss_ok(tl, tr, xa, xb, es), es.len() > 0,
+        ents_ok(tl, tr, xa, xb, ent_key(tl, tr, es.last()), true, cs),
+    ensures
+        ss_ok(tl, tr, xa, xb, es.drop_last() + cs),
+        ent_ok(tl, tr, xa, xb, es.last()),
+        forall|k: Seq<bool>| #[trigger] kcov(tl, tr, es, k) && !(k =~= ent_key(tl, tr, es.last())) ==> lex_lt(ent_key(tl, tr, es.last()), k),
+        forall|k: Seq<bool>| #[trigger] kcov(tl, tr, es.drop_last() + cs, k) ==> kcov(tl, tr, es, k) && !(k =~= ent_key(tl, tr, es.last())),
+        forall|k: Seq<bool>| #[trigger] kcov(tl, tr, es, k) && !pre(ent_key(tl, tr, es.last()), k) ==> kcov(tl, tr, es.drop_last() + cs, k),
+        forall|j: int| 0 <= j < cs.len() ==> spre(ent_key(tl, tr, es.last()), ent_key(tl, tr, #[trigger] cs[j])),
+{
+    reveal(ents_ok);
+    let x = ent_key(tl, tr, es.last());
+    let rest = es.drop_last();
+    let es2 = rest + cs;
+    let top = es.len() - 1;
+    assert(es[top] == es.last());
+    assert forall|k: int| 0 <= k < es2.len() implies ent_ok(tl, tr, xa, xb, #[trigger] es2[k]) && in_reg(Seq::<bool>::empty(), false, ent_key(tl, tr, es2[k])) by {
+        if k < rest.len() { assert(es2[k] == es[k]); } else { assert(es2[k] == cs[k - rest.len()]); }
+    }
+    assert forall|k: int, j: int| 0 <= k < j < es2.len() implies
+            incomparable(ent_key(tl, tr, #[trigger] es2[k]), ent_key(tl, tr, #[trigger] es2[j])) && lex_lt(ent_key(tl, tr, es2[j]), ent_key(tl, tr, es2[k])) by {
+        if j < rest.len() {
+            assert(es2[k] == es[k] && es2[j] == es[j]);
+        } else if k < rest.len() {
+            assert(es2[k] == es[k] && es2[j] == cs[j - rest.len()]);
+            assert(incomparable(ent_key(tl, tr, es[k]), ent_key(tl, tr, es[top])) && lex_lt(ent_key(tl, tr, es[top]), ent_key(tl, tr, es[k])));
+            lemma_pre_refl(ent_key(tl, tr, es[k]));
+            lemma_lex_regions(x, ent_key(tl, tr, es[k]), ent_key(tl, tr, cs[j - rest.len()]), ent_key(tl, tr, es[k]));
+        } else {
+            assert(es2[k] == cs[k - rest.len()] && es2[j] == cs[j - rest.len()]);
+        }
+    }
+    assert forall|k: Seq<bool>| #[trigger] kcov(tl, tr, es, k) && !(k =~= x) implies lex_lt(x, k) by {
+        let j = choose|j: int| 0 <= j < es.len() && pre(ent_key(tl, tr, #[trigger] es[j]), k);
+        if j < top {
+            assert(incomparable(ent_key(tl, tr, es[j]), ent_key(tl, tr, es[top])) && lex_lt(ent_key(tl, tr, es[top]), ent_key(tl, tr, es[j])));
+            lemma_pre_refl(x);
+            lemma_lex_regions(x, ent_key(tl, tr, es[j]), x, k);
+        } else {
+            lemma_lex_spre(x, k);
+        }
+    }
+    assert forall|k: Seq<bool>| #[trigger] kcov(tl, tr, es2, k) implies kcov(tl, tr, es, k) && !(k =~= x) by { lemma_cov_replace(tl, tr, es, cs, k); }
+    assert forall|k: Seq<bool>| #[trigger] kcov(tl, tr, es, k) && !pre(x, k) implies kcov(tl, tr, es2, k) by { lemma_cov_replace(tl, tr, es, cs, k); }
+}
+
+/// [C06] one step of the intersection traversal
+pub proof fn lemma_ix_step<P: Prefix, L, R>(tl: Seq<Node<P, L>>, tr: Seq<Node<P, R>>, xa: Seq<bool>, xb: Seq<bool>, es: Seq<Ent>, cs: Seq<Ent>)
+    requires
+        ss_ok(tl, tr, xa, xb, es), es.len() > 0,
+        ix_post(tl, tr, xa, xb, ent_key(tl, tr, es.last()), true, cs),
+    ensures
+        ss_ok(tl, tr, xa, xb, es.drop_last() + cs),
+        yields2(tl, tr, xa, xb, es, es.drop_last() + cs, ent_key(tl, tr, es.last())),
+        kcov(tl, tr, es, ent_key(tl, tr, es.last())),
+        0 <= ucnt(tl, tr, xa, xb, es.drop_last() + cs) < ucnt(tl, tr, xa, xb, es),
+{
+    let e = es.last();
+    let x = ent_key(tl, tr, e);
+    let es2 = es.drop_last() + cs;
+    lemma_stack_replace_ok(tl, tr, xa, xb, es, cs);
+    lemma_ent_at(tl, tr, xa, xb, e);
+    lemma_pre_refl(x);
+    assert(es[es.len() - 1] == e);
+    assert(kcov(tl, tr, es, x));
+    assert forall|n: int, m: int| #![trigger tlive(tl).contains(n), tlive(tr).contains(m)] rem2(tl, tr, xa, xb, es2, n, m) == (rem2(tl, tr, xa, xb, es, n, m) && !(kb(tl, n) =~= x)) by {
+        if rem2(tl, tr, xa, xb, es, n, m) && !(kb(tl, n) =~= x) && pre(x, kb(tl, n)) {
+            reveal(ents_cover2);
+            let k1 = choose|k: int| 0 <= k < cs.len() && pre(ent_key(tl, tr, #[trigger] cs[k]), kb(tl, n));
+            assert(es2[es.drop_last().len() + k1] == cs[k1]);
+        }
+    }
+    let fl = cov_l(tl, tr, xa, es); let gl = cov_l(tl, tr, xa, es2);
+    let fr = cov_r(tl, tr, xb, es); let gr = cov_r(tl, tr, xb, es2);
+    assert forall|i: int| 0 <= i < tl.len() && #[trigger] gl(i) implies fl(i) by { }
+    assert forall|i: int| 0 <= i < tr.len() && #[trigger] gr(i) implies fr(i) by { }
+    let wl = if ent_l(e).is_some() { ent_l(e).unwrap() as int } else { -1 };
+    let wr = if ent_r(e).is_some() { ent_r(e).unwrap() as int } else { -1 };
+    if ent_l(e).is_some() { assert(fl(wl) && !gl(wl)); }
+    if ent_r(e).is_some() { assert(fr(wr) && !gr(wr)); }
+    lemma_icnt(fl, gl, tl.len() as int, wl);
+    lemma_icnt(fr, gr, tr.len() as int, wr);
+}
+
+/// children of a Both entry, intersection flavour (same precondition as for the union)
+// (lemma_both_children is shared)
+
+// ---- ix one-sided descent: the left view's node l is strictly above the right view's node r (entry FirstL(l, r)) ----
+
+/// two children, r on side s: only the half region on r's side can hold common keys
+pub proof fn lemma_ixl_two<P: Prefix, L, R>(tl: Seq<Node<P, L>>, tr: Seq<Node<P, R>>, xa: Seq<bool>, xb: Seq<bool>, l: usize, r: usize, s: bool, es1: Seq<Ent>)
+    requires
+        twf(tl), twf(tr), ent_ok(tl, tr, xa, xb, Ent::FirstL(l, r)),
+        kb(tr, r as int)[kb(tl, l as int).len() as int] == s,
+        ix_post(tl, tr, xa, xb, kb(tl, l as int).push(s), false, es1),
+    ensures ix_post(tl, tr, xa, xb, kb(tl, l as int), true, es1)
+{
+    reveal(ents_ok); reveal(ents_cover2);
+    let x = kb(tl, l as int);
+    lemma_half_region(x, s);
+    assert forall|k: int| 0 <= k < es1.len() implies in_reg(x, true, ent_key(tl, tr, #[trigger] es1[k])) by {
+        assert(pre(x.push(s), ent_key(tl, tr, es1[k])));
+    }
+    assert forall|n: int, m: int| #![trigger tlive(tl).contains(n), tlive(tr).contains(m)]
+        vin(tl, xa, n) && vin(tr, xb, m) && kb(tl, n) =~= kb(tr, m) && spre(x, kb(tl, n)) implies exists|k: int| 0 <= k < es1.len() && pre(ent_key(tl, tr, #[trigger] es1[k]), kb(tl, n)) by {
+        lemma_pre_refl(x);
+        assert(pre(kb(tr, r as int), kb(tr, m)));
+        assert(kb(tr, m)[x.len() as int] == s);
+        assert(pre(x.push(s), kb(tl, n)));
+    }
+}
+
+pub open spec fn ixl_cases<P: Prefix, L, R>(tl: Seq<Node<P, L>>, tr: Seq<Node<P, R>>, xa: Seq<bool>, xb: Seq<bool>, l: usize, r: usize) -> bool {
+    let x = kb(tl, l as int);
+    let cl = chd(tl, l as int, false); let cr = chd(tl, l as int, true);
+    let s = kb(tr, r as int)[x.len() as int];
+    &&& (cl.is_none() && cr.is_none() ==> ix_post(tl, tr, xa, xb, x, true, Seq::<Ent>::empty()))
+    &&& (cl.is_none() && cr.is_some() ==> ni_pre(tl, tr, xa, xb, x, true, cr, Some(r)))
+    &&& (cl.is_some() && cr.is_none() ==> ni_pre(tl, tr, xa, xb, x, true, cl, Some(r)))
+    &&& (cl.is_some() && cr.is_some() ==> ni_pre(tl, tr, xa, xb, x.push(s), false, chd(tl, l as int, s), Some(r))
+            && (forall|es1: Seq<Ent>| #[trigger] ix_post(tl, tr, xa, xb, x.push(s), false, es1) ==> ix_post(tl, tr, xa, xb, x, true, es1)))
+}
+
+pub proof fn lemma_ixl_cases<P: Prefix, L, R>(tl: Seq<Node<P, L>>, tr: Seq<Node<P, R>>, xa: Seq<bool>, xb: Seq<bool>, l: usize, r: usize)
+    requires twf(tl), twf(tr), ent_ok(tl, tr, xa, xb, Ent::FirstL(l, r))
+    ensures ixl_cases(tl, tr, xa, xb, l, r)
+{
+    let x = kb(tl, l as int);
+    let cl = chd(tl, l as int, false); let cr = chd(tl, l as int, true);
+    let s = kb(tr, r as int)[x.len() as int];
+    if cl.is_none() && cr.is_none() {
+        lemma_fl_none(tl, tr, xa, xb, l, r);
+        // no left-view node strictly below l: nothing in common
+        reveal(ents_ok); reveal(ents_cover2);
+        lemma_fl_facts(tl, tr, xa, xb, l, r);
+        assert forall|n: int, m: int| #![trigger tlive(tl).contains(n), tlive(tr).contains(m)]
+            vin(tl, xa, n) && vin(tr, xb, m) && kb(tl, n) =~= kb(tr, m) && spre(x, kb(tl, n)) implies false by {
+            assert(chd(tl, l as int, kb(tl, n)[x.len() as int]).is_some());
+        }
+    }
+    if cl.is_none() && cr.is_some() { lemma_fl_one(tl, tr, xa, xb, l, r, true); }
+    if cl.is_some() && cr.is_none() { lemma_fl_one(tl, tr, xa, xb, l, r, false); }
+    if cl.is_some() && cr.is_some() {
+        lemma_fl_two_pre(tl, tr, xa, xb, l, r, s);
+        assert forall|es1: Seq<Ent>| #[trigger] ix_post(tl, tr, xa, xb, x.push(s), false, es1) implies ix_post(tl, tr, xa, xb, x, true, es1) by {
+            lemma_ixl_two(tl, tr, xa, xb, l, r, s, es1);
+        }
+    }
+}
+
+// ---- end of the lemma_ixl family ----
+
 // ---- one-sided descent, mirrored: the right view's node r is strictly above the left view's node l (entry FirstR(l, r)) ----
 // (mechanical mirror image of the lemma_fl_* family, generated by tools/mirror_setops.py)
 
@@ -1299,6 +1573,70 @@ pub proof fn lemma_fr_cases<P: Prefix, L, R>(tl: Seq<Node<P, L>>, tr: Seq<Node<P
                     (s ==> ni_post(tl, tr, xa, xb, x, true, es1.push(Ent::OnlyR(cl.unwrap()))))
                     && (!s ==> ni_post(tl, tr, xa, xb, x, true, es1.insert(0, Ent::OnlyR(cr.unwrap())))) by {
             lemma_fr_two_post(tl, tr, xa, xb, l, r, s, es1);
+        }
+    }
+}
+
+
+// ---- ix one-sided descent, mirrored (entry FirstR(l, r)); generated by tools/mirror_setops.py ----
+
+/// two children, r on side s: only the half region on r's side can hold common keys
+pub proof fn lemma_ixr_two<P: Prefix, L, R>(tl: Seq<Node<P, L>>, tr: Seq<Node<P, R>>, xa: Seq<bool>, xb: Seq<bool>, l: usize, r: usize, s: bool, es1: Seq<Ent>)
+    requires
+        twf(tl), twf(tr), ent_ok(tl, tr, xa, xb, Ent::FirstR(l, r)),
+        kb(tl, l as int)[kb(tr, r as int).len() as int] == s,
+        ix_post(tl, tr, xa, xb, kb(tr, r as int).push(s), false, es1),
+    ensures ix_post(tl, tr, xa, xb, kb(tr, r as int), true, es1)
+{
+    reveal(ents_ok); reveal(ents_cover2);
+    let x = kb(tr, r as int);
+    lemma_half_region(x, s);
+    assert forall|k: int| 0 <= k < es1.len() implies in_reg(x, true, ent_key(tl, tr, #[trigger] es1[k])) by {
+        assert(pre(x.push(s), ent_key(tl, tr, es1[k])));
+    }
+    assert forall|n: int, m: int| #![trigger tlive(tr).contains(n), tlive(tl).contains(m)]
+        vin(tr, xb, n) && vin(tl, xa, m) && kb(tr, n) =~= kb(tl, m) && spre(x, kb(tr, n)) implies exists|k: int| 0 <= k < es1.len() && pre(ent_key(tl, tr, #[trigger] es1[k]), kb(tr, n)) by {
+        lemma_pre_refl(x);
+        assert(pre(kb(tl, l as int), kb(tl, m)));
+        assert(kb(tl, m)[x.len() as int] == s);
+        assert(pre(x.push(s), kb(tr, n)));
+    }
+}
+
+pub open spec fn ixr_cases<P: Prefix, L, R>(tl: Seq<Node<P, L>>, tr: Seq<Node<P, R>>, xa: Seq<bool>, xb: Seq<bool>, l: usize, r: usize) -> bool {
+    let x = kb(tr, r as int);
+    let cl = chd(tr, r as int, false); let cr = chd(tr, r as int, true);
+    let s = kb(tl, l as int)[x.len() as int];
+    &&& (cl.is_none() && cr.is_none() ==> ix_post(tl, tr, xa, xb, x, true, Seq::<Ent>::empty()))
+    &&& (cl.is_none() && cr.is_some() ==> ni_pre(tl, tr, xa, xb, x, true, Some(l), cr))
+    &&& (cl.is_some() && cr.is_none() ==> ni_pre(tl, tr, xa, xb, x, true, Some(l), cl))
+    &&& (cl.is_some() && cr.is_some() ==> ni_pre(tl, tr, xa, xb, x.push(s), false, Some(l), chd(tr, r as int, s))
+            && (forall|es1: Seq<Ent>| #[trigger] ix_post(tl, tr, xa, xb, x.push(s), false, es1) ==> ix_post(tl, tr, xa, xb, x, true, es1)))
+}
+
+pub proof fn lemma_ixr_cases<P: Prefix, L, R>(tl: Seq<Node<P, L>>, tr: Seq<Node<P, R>>, xa: Seq<bool>, xb: Seq<bool>, l: usize, r: usize)
+    requires twf(tl), twf(tr), ent_ok(tl, tr, xa, xb, Ent::FirstR(l, r))
+    ensures ixr_cases(tl, tr, xa, xb, l, r)
+{
+    let x = kb(tr, r as int);
+    let cl = chd(tr, r as int, false); let cr = chd(tr, r as int, true);
+    let s = kb(tl, l as int)[x.len() as int];
+    if cl.is_none() && cr.is_none() {
+        lemma_fr_none(tl, tr, xa, xb, l, r);
+        // no left-view node strictly below l: nothing in common
+        reveal(ents_ok); reveal(ents_cover2);
+        lemma_fr_facts(tl, tr, xa, xb, l, r);
+        assert forall|n: int, m: int| #![trigger tlive(tr).contains(n), tlive(tl).contains(m)]
+            vin(tr, xb, n) && vin(tl, xa, m) && kb(tr, n) =~= kb(tl, m) && spre(x, kb(tr, n)) implies false by {
+            assert(chd(tr, r as int, kb(tr, n)[x.len() as int]).is_some());
+        }
+    }
+    if cl.is_none() && cr.is_some() { lemma_fr_one(tl, tr, xa, xb, l, r, true); }
+    if cl.is_some() && cr.is_none() { lemma_fr_one(tl, tr, xa, xb, l, r, false); }
+    if cl.is_some() && cr.is_some() {
+        lemma_fr_two_pre(tl, tr, xa, xb, l, r, s);
+        assert forall|es1: Seq<Ent>| #[trigger] ix_post(tl, tr, xa, xb, x.push(s), false, es1) implies ix_post(tl, tr, xa, xb, x, true, es1) by {
+            lemma_ixr_two(tl, tr, xa, xb, l, r, s, es1);
         }
     }
 }
